@@ -26,6 +26,8 @@ func init() {
 			obs = append(obs, c.Endian()...)
 			obs = append(obs, c.TagDispatch("nbt", "nbt/dynbt")...)
 			obs = append(obs, c.KindTables()...)
+			obs = append(obs, c.NaturalTypes()...)
+			obs = append(obs, c.OmitEmptyTestsField()...)
 			obs = append(obs, filterObs(c.RawRead(), func(o core.Ob) bool { return strings.HasPrefix(o.Key, "nbt.") || strings.HasPrefix(o.Key, "nbt/") })...)
 			return obs
 		},
@@ -36,6 +38,7 @@ func init() {
 			obs := c.ReflKind()
 			obs = append(obs, c.KindTables()...)
 			obs = append(obs, c.NoMutation()...)
+			obs = append(obs, c.NaturalTypes()...)
 			obs = append(obs, filterObs(c.MarshalerContract(), func(o core.Ob) bool { return strings.HasPrefix(o.Key, "nbt") })...)
 			return obs
 		},
@@ -44,6 +47,7 @@ func init() {
 		Explanation: "T-SNBTSUF: every numeric suffix and typed-array prefix the text writer emits is classified back to the same tag by the parser's literal classifier (isIntegerType/isFloatType evaluated per emitted character; suffix->tag switches compared as tables), and TagType() agrees with the parser on the array prefixes. T-DISPATCH for the binary->text dispatcher. R-PANIC: explicit panics reachable from the text entry points are triaged. R-TLG: binary->text loops are bounded by sign-checked counts. Not decided: the accepted language of the hand-written scanner, float formatting exactness, quoting decisions.",
 		Run: func(c *Ctx) []core.Ob {
 			obs := c.SNBTSuffix()
+			obs = append(obs, c.SNBTLiteralWidths()...)
 			obs = append(obs, filterObs(c.TagDispatch("nbt"), func(o core.Ob) bool { return strings.Contains(o.Key, "StringifiedMessage") })...)
 			in := func(fn *ssa.Function) bool {
 				n := core.FnName(fn)
@@ -72,6 +76,7 @@ func init() {
 		Explanation: "R-GUARD (via the R-TLG abstract interpreter): at every access of the packed longs in Get/Set/Swap the index is proven in [0, length-1] and at every store the value in [0, mask]; with 0 bits the methods return before calcIndex divides. R-ORDER: Fix returns nil only for 0 bits or after the raw-length comparison; NewBitStorage checks the length before copying. R-WIRESYM + R-TLG for ReadFrom/WriteTo. Not decided: the packing arithmetic itself (index -> long/offset, neighbours untouched).",
 		Run: func(c *Ctx) []core.Ob {
 			obs := c.BitStorageGuards()
+			obs = append(obs, c.BitStorageFixSibling()...)
 			obs = append(obs, c.wireObs(func(p, t string) bool { return p == "level" && t == "BitStorage" })...)
 			in := recvPred("level", "BitStorage")
 			obs = append(obs, c.TLGObs(in, in, false)...)
